@@ -15,21 +15,25 @@ CFG = dict(
                "(compared within 2^-40 relative). Color (sha256) is not modelled. graph.ShortenFunctionName and filepath.Clean are "
                "oracles whose answers are shipped in each case; theorems hold for arbitrary oracle functions. Trusted: Coq kernel + "
                "vm_compute, harness, go build -overlay, encoding/json + html/template hand-off as exercised.",
+    shard=150,
     translators=[("gen-unittable", "Gen/Gen_UnitTable.v")],
     rule="inputs = (profile as held by the report after aggregation, options {sample index, mean divisor, type, unit, trim path, ratio}, "
          "oracle tables); generators: seeded random profiles biased to few names/files (collisions), recursion (repeated locations), "
          "self-inlining, lines differing only in line/column, nil functions, empty stacks, locations without lines, diff-base labels, "
-         "extreme int64 values x 6 granularities x noinlines/showcolumns; a third of them with shared backing arrays (same / overlapping / adjacent Location slices, shared Line and Value arrays); call sequences (\"seq\" cases: Stacks() 2-5 times on one report or on several reports sharing the profile, every returned stack set judged against the original profile, profile dumped again afterwards); web sessions (2-4 /flamegraph requests through one webInterface, incl. a refused request in between); the same through the web handler with URL parameters "
+         "extreme int64 values x 6 granularities x noinlines/showcolumns; a third of them with shared backing arrays (same / overlapping / adjacent Location slices, shared Line and Value arrays); call sequences (\"seq\" cases: Stacks() 2-5 times on one report or on several reports sharing the profile, every returned stack set judged against the original profile, profile dumped again afterwards); web pages are read the way a browser does (HTML tokenizer delimits the script element, then the stackViewer(...) call is decoded; names/files with script end tags, comment openers, <>&, quotes, control characters); web sessions (2-4 /flamegraph requests through one webInterface, incl. a refused request in between); the same through the web handler with URL parameters "
          "(incl. profiles without samples / with only empty stacks); hand-made corner profiles; exhaustive small scope (all pairs of "
          "stacks of depth <= 2 (quick: 1/3 of them) or <= 3 (thorough) over 4 locations x 3 granularities); distinct = sha256 of the "
          "input term; non-trivial = at least one sample has a frame",
     spec_what="stack set served to the flame graph violates the C17 statement (stack/frames mismatch, interning, value sum, self, "
               "places, index range, null array or missing field)",
-    trusted_base=["graph.ShortenFunctionName and filepath.Clean+ToSlash as oracles (answers shipped per case, identity where equal)",
+    trusted_base=["harness HTML tokenizer (c17_page.go), cross-checked on every web case against the Gallina tokenizer S_Handoff.script_data_end",
+                  "graph.ShortenFunctionName and filepath.Clean+ToSlash as oracles (answers shipped per case, identity where equal)",
                   "export shims internal/report/zz_verif_c17.go, internal/driver/zz_verif_c17.go (add-only; the driver shim calls the real "
                   "stackView handler and re-runs generateRawReport with the same configuration to hand the model the profile/options)",
                   "Scale compared within 2^-40 relative (float64 vs exact rational); unit table regenerated from /repo (gen-unittable)"],
-    assumptions=["call sequences: the reports share one profile and only Stacks() is called between the two profile dumps",
+    assumptions=["the script engine is approximated: the stackViewer call must read JSON, comma, JSON, \");\" and nothing else up to the end of the script element as the HTML tokenizer delimits it",
+                 "encoding/json string encoding is modelled for valid UTF-8 without U+2028/U+2029",
+                 "call sequences: the reports share one profile and only Stacks() is called between the two profile dumps",
                  "profile pointers are modelled as ids: locations/functions referenced by samples/lines exist and ids are unique (profile.CheckValid)",
                  "SourcePath is empty (trimPath's search-path heuristic is not modelled); TrimPath is modelled",
                  "StackSource.Color is not part of the observable"],
